@@ -532,11 +532,9 @@ func (sw *SlidingWindow) checkAndTriggerWindows(watermarkTime time.Time) {
 			debugLogSliding("checkAndTriggerWindows: triggering window [%v, %v) with %d data items",
 				windowStart.UnixMilli(), windowEnd.UnixMilli(), dataInWindow)
 
-			sw.triggerSpecificWindowLocked(slotToTrigger)
-
-			debugLogSliding("checkAndTriggerWindows: window triggered successfully")
-
-			// If allowedLateness > 0, keep window open for late data
+			// Register the window as open for late data BEFORE the lock is released for
+			// the delivery (triggerSpecificWindowLocked unlocks around the callback): a
+			// late row of this very window arriving during that gap must find it.
 			if allowedLateness > 0 {
 				windowKey := sw.getWindowKey(*slotToTrigger.End)
 				closeTime := slotToTrigger.End.Add(allowedLateness)
@@ -548,6 +546,10 @@ func (sw *SlidingWindow) checkAndTriggerWindows(watermarkTime time.Time) {
 				debugLogSliding("checkAndTriggerWindows: window [%v, %v) kept open for late data until %v",
 					windowStart.UnixMilli(), windowEnd.UnixMilli(), closeTime.UnixMilli())
 			}
+
+			sw.triggerSpecificWindowLocked(slotToTrigger)
+
+			debugLogSliding("checkAndTriggerWindows: window triggered successfully")
 		} else {
 			debugLogSliding("checkAndTriggerWindows: window [%v, %v) has no data, skipping trigger",
 				windowStart.UnixMilli(), windowEnd.UnixMilli())
